@@ -37,13 +37,16 @@ def run(cx):
         cx.ob('ORDER', 'polyline_intersections:dedup-predicate', okd,
               'duplicates are parameters closer than a POSITIVE CONSTANT tolerance (a tolerance that depends on the parameters can vanish - at t = 0 for a relative one - and let an exact duplicate through)',
               found=str({k: show(v) for k, v in cls.items()}))
-        pushes = b.calls('Vec::push')
-        ok = len(pushes) == 1
+        # the raw hit list as a comprehension over the collected ids (push loop or filter_map chain alike); it is the list that is sorted
+        from vpa import comp as CMP
+        ev = match('(mut Vec::dedup_by . (mut slice::sort_by . $v _) _)', r)
+        comps = [c for c in CMP.comprehensions(cx, b, ev['v']) if c.get('elem') is not None] if ev else []
+        ok = len(comps) == 1
         if ok:
-            s = pushes[0]
-            v = cx.arg(s, 1)
-            e = match('(agg tuple (0 (unwrap (call *ray_intersect_with_edge (param polyline) (param ray) $i))) (1 $i))', v)
-            ok = e is not None and match('(itervar (field collector _))', e['i']) is not None and cx.guarded(b, s.bb, '(is (call *ray_intersect_with_edge (param polyline) (param ray) $i) Some)', True, e) is not None
+            c = comps[0]
+            e = match('(agg tuple (0 (unwrap (call *ray_intersect_with_edge (param polyline) (param ray) $i))) (1 $i))', c['elem'])
+            ok = e is not None and match('(index (field collector _) _)', e['i']) is not None and \
+                CMP.has_cond(c, '(is (call *ray_intersect_with_edge (param polyline) (param ray) $i) Some)', True, e) and len(c['conds']) == 1
         cx.ob('EXPR', 'polyline_intersections:retest', ok,
               'every id collected by the traversal is re-tested against ITS edge and only hits are reported, as (t, the same edge id): the reported set is sound whatever the box test let through', where=b.file)
         tr = b.calls('Qbvh::traverse_depth_first')
